@@ -1579,5 +1579,118 @@ theorem iproduct_mem {α} : ∀ (xss : List (List α)) (p : List α), p ∈ ipro
     · obtain ⟨ys, hys, hcy⟩ := ih q hq c hm
       exact ⟨ys, by simp [hys], hcy⟩
 
+/-! ### derived specs -/
+
+/-- what every derivation (part / subset / round trip) preserves of the spec it starts from -/
+structure DerivedFrom (s s' : Spec) : Prop where
+  enc : s'.encoderState = s.encoderState
+  ts : s'.transformState = s.transformState
+  na : s'.naAction = s.naAction
+  efr : s'.ensureFullRank = s.ensureFullRank
+  out : s'.output = s.output
+  terms : ∀ t ∈ s'.terms, t ∈ s.terms
+  rows : ∀ t ∈ s'.structure_, t ∈ s.structure_
+
+theorem DerivedFrom.refl (s : Spec) : DerivedFrom s s :=
+  ⟨rfl, rfl, rfl, rfl, rfl, fun _ h => h, fun _ h => h⟩
+
+theorem DerivedFrom.trans {a b c : Spec} (h1 : DerivedFrom a b) (h2 : DerivedFrom b c) : DerivedFrom a c :=
+  ⟨h2.enc.trans h1.enc, h2.ts.trans h1.ts, h2.na.trans h1.na, h2.efr.trans h1.efr, h2.out.trans h1.out,
+   fun t h => h1.terms t (h2.terms t h), fun t h => h1.rows t (h2.rows t h)⟩
+
+theorem mem_insertByDegree (a x : List FactorDecl × TermStruct) (l : List (List FactorDecl × TermStruct)) :
+    x ∈ insertByDegree a l ↔ x = a ∨ x ∈ l := by
+  induction l with
+  | nil => simp [insertByDegree]
+  | cons y r ih =>
+    unfold insertByDegree
+    split
+    · simp
+    · simp only [List.mem_cons, ih]; exact or_left_comm
+
+theorem mem_sortByDegree (x : List FactorDecl × TermStruct) (l : List (List FactorDecl × TermStruct)) :
+    x ∈ sortByDegree l ↔ x ∈ l := by
+  induction l with
+  | nil => simp [sortByDegree]
+  | cons y r ih =>
+    have : sortByDegree (y :: r) = insertByDegree y (sortByDegree r) := rfl
+    rw [this, mem_insertByDegree, ih]; simp
+
+theorem subsetSpec_derived (s s' : Spec) (picks : List Nat) (h : subsetSpec s picks = .ok s') :
+    DerivedFrom s s' := by
+  unfold subsetSpec at h
+  split at h
+  · simp at h
+  · rename_i rows hrows
+    simp only [Except.ok.injEq] at h
+    subst h
+    have hrow : ∀ p ∈ rows, p.1 ∈ s.terms ∧ p.2 ∈ s.structure_ := by
+      intro p hp
+      obtain ⟨i, _, hi⟩ := mapE_mem_out _ picks rows hrows p hp
+      split at hi
+      · rename_i t ts ht hts
+        simp only [Except.ok.injEq] at hi
+        subst hi
+        exact ⟨List.mem_of_getElem? ht, List.mem_of_getElem? hts⟩
+      · simp at hi
+    refine ⟨rfl, rfl, rfl, rfl, rfl, ?_, ?_⟩
+    · intro t ht
+      simp only [List.mem_map] at ht
+      obtain ⟨p, hp, rfl⟩ := ht
+      exact (hrow p ((mem_sortByDegree p rows).mp hp)).1
+    · intro t ht
+      simp only [List.mem_map] at ht
+      obtain ⟨p, hp, rfl⟩ := ht
+      exact (hrow p ((mem_sortByDegree p rows).mp hp)).2
+
+theorem applyStep_derived (specs specs' : List Spec) (st : Step) (h : applyStep specs st = .ok specs') :
+    ∀ s' ∈ specs', ∃ s ∈ specs, DerivedFrom s s' := by
+  intro s' hs'
+  cases st with
+  | part i =>
+    simp only [applyStep] at h
+    split at h
+    · rename_i s hs
+      simp only [Except.ok.injEq] at h
+      subst h
+      simp only [List.mem_singleton] at hs'
+      subst hs'
+      exact ⟨s', List.mem_of_getElem? hs, DerivedFrom.refl _⟩
+    · simp at h
+  | subset picks =>
+    simp only [applyStep] at h
+    split at h
+    · rename_i s
+      split at h
+      · simp at h
+      · rename_i s'' hsub
+        simp only [Except.ok.injEq] at h
+        subst h
+        simp only [List.mem_singleton] at hs'
+        subst hs'
+        exact ⟨s, by simp, subsetSpec_derived s s' picks hsub⟩
+    · simp at h
+  | roundTrip =>
+    simp only [applyStep, Except.ok.injEq] at h
+    subst h
+    exact ⟨s', hs', DerivedFrom.refl _⟩
+
+theorem derive_derived (steps : List Step) : ∀ (specs specs' : List Spec), derive specs steps = .ok specs' →
+    ∀ s' ∈ specs', ∃ s ∈ specs, DerivedFrom s s' := by
+  induction steps with
+  | nil =>
+    intro specs specs' h s' hs'
+    simp only [derive, Except.ok.injEq] at h
+    subst h
+    exact ⟨s', hs', DerivedFrom.refl _⟩
+  | cons st r ih =>
+    intro specs specs' h s' hs'
+    simp only [derive] at h
+    split at h
+    · simp at h
+    · rename_i mid hmid
+      obtain ⟨m, hm, hd⟩ := ih mid specs' h s' hs'
+      obtain ⟨s, hs, hd'⟩ := applyStep_derived specs mid st hmid m hm
+      exact ⟨s, hs, hd'.trans hd⟩
 
 end FormulaicVerif.Proofs.C09
